@@ -7,7 +7,7 @@ cd "$(dirname "$0")/.."
 . ./env.sh
 pat="${1:-}"
 fail=0
-while IFS=$'\t' read -r patch prop want; do
+while IFS=$'\t' read -r patch prop want <&3; do
   [ -z "$patch" ] && continue
   case "$patch" in \#*) continue;; esac
   [ -n "$pat" ] && [[ "$patch" != *$pat* ]] && continue
@@ -17,12 +17,12 @@ while IFS=$'\t' read -r patch prop want; do
     if [ -n "${VERIF_SELFTEST_SKIP_UNAPPLICABLE:-}" ]; then echo "SELFTEST $patch: skipped (does not apply to this tree)"; else echo "SELFTEST $patch: patch does not apply"; fail=1; fi
     rm -rf "$tmp"; continue
   fi
-  out=$(bin/govc check -repo "$tmp" -prop "$prop" -verif /verif -outdir "/tmp/govc-selftest-out-$$" -noevidence 2>&1)
+  out=$(bin/govc check -repo "$tmp" -prop "$prop" -verif /verif -outdir "/tmp/govc-selftest-out-$$" -noevidence 2>&1 </dev/null)
   if echo "$out" | grep -q "^VIOLATION property=$prop" && echo "$out" | grep -q "FAILED-OBLIGATION: .*$want"; then
     echo "SELFTEST $patch: caught ($prop, $want)"
   else
     echo "SELFTEST $patch: MISSED (wanted $prop / $want)"; echo "$out" | tail -5; fail=1
   fi
   rm -rf "$tmp" "/tmp/govc-selftest-out-$$"
-done < selftest/expect.tsv
+done 3< selftest/expect.tsv
 exit $fail
